@@ -116,43 +116,43 @@ def exports_for(ctx):
         limit = kw.pop("limit", None)
         L.append(Export(label, syn_cfg(label, **kw), simulate=sim, depth=depth, limit=limit))
 
-    # exhaustive: every statement skeleton of <= N tokens in a coroutine body
-    add("stmt-q", start="Stmt", cx="bodyq", maxtok=6 if th else 5)
-    add("stmt-e", start="Stmt", cx="bodye", maxtok=5 if th else 4)
-    add("stmt-p", start="Stmt", cx="bodyp", maxtok=5 if th else 4)
-    # the known construct (b) is reachable: a pub method, refined argument, non-empty result
-    add("stmt-r", start="Stmt", cx="bodyr", maxtok=3)
+    dall = ("void", "splice", "drop", "dup", "swap", "unbalance")
+    # exhaustive: every statement skeleton of <= N tokens in a coroutine / impure / pure method body
+    add("stmt-q", start="Stmt", cx="bodyq", maxtok=6 if th else 4)
+    add("stmt-e", start="Stmt", cx="bodye", maxtok=5 if th else 3)
+    add("stmt-p", start="Stmt", cx="bodyp", maxtok=5 if th else 3)
+    # the known construct (b) stays reachable: a pub method, refined argument, non-empty result
+    add("stmt-r", start="Stmt", cx="bodyr", maxtok=4 if th else 3)
     # exhaustive: every single damage of the small skeletons
-    add("dmg-stmt", start="Stmt", cx="bodyq", maxtok=5 if th else 4, maxdmg=1,
-        dkinds=("void", "splice", "drop", "dup", "swap", "unbalance"))
-    add("dmg-stmt-e", start="Stmt", cx="bodye", maxtok=4 if th else 3, maxdmg=1,
-        dkinds=("void", "splice", "drop", "dup", "swap", "unbalance"))
-    add("types-var", start="Type", cx="var", maxtok=8 if th else 7, maxdmg=1, dkinds=("void", "drop", "dup"))
-    add("types-field", start="Type", cx="field", maxtok=7 if th else 6, maxdmg=1, dkinds=("void", "swap", "unbalance"))
-    add("consts", start="ConstVal", cx="const", maxtok=6 if th else 5, maxdmg=1, dkinds=("void", "drop", "dup", "swap", "unbalance"))
-    add("decl", start="Decl", cx="top", maxtok=9 if th else 8, maxdmg=1, dkinds=("void", "splice"))
+    add("dmg-stmt", start="Stmt", cx="bodyq", maxtok=4 if th else 3, maxdmg=1, dkinds=dall)
+    add("dmg-stmt-e", start="Stmt", cx="bodye", maxtok=3 if th else 2, maxdmg=1, dkinds=dall)
+    add("types-var", start="Type", cx="var", maxtok=8 if th else 6, maxdmg=1, dkinds=("void", "drop", "dup"))
+    add("types-field", start="Type", cx="field", maxtok=7 if th else 5, maxdmg=1, dkinds=("void", "swap", "unbalance"))
+    add("consts", start="ConstVal", cx="const", maxtok=6 if th else 5, maxdmg=1, dkinds=("void", "drop", "dup", "swap"))
+    add("decl", start="Decl", cx="top", maxtok=9 if th else 8)
+    add("decl-dmg", start="Decl", cx="top", maxtok=7 if th else 6, maxdmg=1, dkinds=("void", "splice", "drop", "swap"))
     add("decl-ctx", start="Decl", cx="decls", maxtok=8 if th else 7)
     # exhaustive: every token-kind pair; triples over the core alphabet
     add("adj2-body", mode="adjacency", cx="bodyq", adjk=2, adjalpha="full")
     add("adj2-top", mode="adjacency", cx="top", adjk=2, adjalpha="full")
-    add("adj3-body", mode="adjacency", cx="bodyq", adjk=3, adjalpha="core")
+    add("adj3-body", mode="adjacency", cx="bodye", adjk=3, adjalpha="core")
     if th:
         add("adj3-top", mode="adjacency", cx="top", adjk=3, adjalpha="core")
-        add("adj3-full", mode="adjacency", cx="bodye", adjk=3, adjalpha="full")
+        add("adj3-full", mode="adjacency", cx="bodyq", adjk=3, adjalpha="full")
     # nesting at, below and beyond the documented limits (63 types, 255 expressions/bodies)
-    lim = (62, 63, 64, 65, 254, 255, 256, 257, 1000, 20000)
-    for cx, start in (("bodyq", "Stmt"), ("bodye", "Stmt"), ("var", "Type"), ("const", "ConstVal"), ("top", "Decl")):
-        add("nest-%s" % cx, start=start, cx=cx, maxtok={"Stmt": 4, "Type": 2, "ConstVal": 2, "Decl": 8}[start], maxdmg=1,
-            dkinds=("nest",), depths=lim)
+    lim = (62, 63, 64, 65, 254, 255, 256, 257, 1000, 20000) if th else (63, 64, 255, 256, 257, 20000)
+    for cx, start, mt in (("xu32", "OU32", 3), ("tbool", "OBool", 3), ("cu8", "OU8", 3), ("sslice", "ESlice", 3), ("lhs", "LU32", 3),
+                          ("bodye", "Stmt", 4 if th else 3), ("bodyq", "Stmt", 4 if th else 3), ("else", "ElsePart", 3), ("var", "Type", 3),
+                          ("const", "ConstVal", 3), ("struct", "Fields", 3), ("top", "Decl", 8 if th else 7)):
+        add("nest-%s" % cx, start=start, cx=cx, maxtok=mt, maxdmg=1, dkinds=("nest",), depths=lim)
     # seeded simulation of larger derivations
-    n = 6000 if th else 700
-    add("sim-body-q", start="Stmts", cx="bodyq", maxtok=70, simulate="num=%d" % n, depth=400)
-    add("sim-body-e", start="Stmts", cx="bodye", maxtok=50, simulate="num=%d" % (n // 2), depth=400)
-    add("sim-body-dmg", start="Stmts", cx="bodyq", maxtok=40, maxdmg=2,
-        dkinds=("void", "splice", "drop", "dup", "swap", "unbalance", "nest"), depths=(3, 64, 256), simulate="num=%d" % n, depth=400)
-    add("sim-file", start="File", cx="top", maxtok=90, simulate="num=%d" % (n // 2), depth=500)
-    add("sim-file-dmg", start="File", cx="decls", maxtok=60, maxdmg=2,
-        dkinds=("void", "splice", "drop", "dup", "swap", "unbalance", "nest"), depths=(3, 64, 256), simulate="num=%d" % (n // 2), depth=500)
+    n = 1500 if th else 60
+    dsim = dall + ("nest",)
+    add("sim-body-q", start="Body", cx="bodyq", maxtok=70, mintok=35, simulate="num=%d" % n, depth=400)
+    add("sim-body-e", start="Body", cx="bodye", maxtok=50, mintok=25, simulate="num=%d" % n, depth=400)
+    add("sim-body-dmg", start="Body", cx="bodyq", maxtok=40, mintok=20, maxdmg=2, dkinds=dsim, depths=(3, 64, 256), simulate="num=%d" % n, depth=400)
+    add("sim-file", start="File", cx="top", maxtok=90, mintok=45, simulate="num=%d" % n, depth=500)
+    add("sim-file-dmg", start="File", cx="decls", maxtok=60, mintok=25, maxdmg=2, dkinds=dsim, depths=(3, 64, 256), simulate="num=%d" % n, depth=500)
     return L
 
 
@@ -340,7 +340,13 @@ def run(ctx, only_sources=None):
         if ex.error:
             raise ToolingError(ex.error)
     nest = exps[0].nest
-    seqs = [s for ex in exps for s in ex.tokens]
+    seqs, seen = [], set()
+    for ex in exps:
+        for o, toks in ex.tokens:
+            key = "\x00".join(toks)
+            if key not in seen:
+                seen.add(key)
+                seqs.append((o, toks))
     deepseqs = [s for ex in deep for s in ex.tokens]
     ctx.log("TLC exported %d token sequences (+%d deep) from %d configurations" % (len(seqs), len(deepseqs), len(exps) + len(deep)))
     gendir = ctx.subdir("gen")
